@@ -210,6 +210,7 @@ type world struct {
 	failAt, failKind int
 	wg sync.WaitGroup
 	serverConn *websocket.Conn
+	afterRefusal int // bytes the proxy received after it had refused the CONNECT
 }
 
 func (w *world) hook(fn string) func(ctx context.Context, network, addr string) (net.Conn, error) {
@@ -323,6 +324,25 @@ func (w *world) httpConnect(c net.Conn) (net.Conn, error) {
 	}
 	fmt.Fprintf(c, "%s\r\n\r\n", reply)
 	if !strings.HasPrefix(reply, "HTTP/1.1 200") {
+		// a client that takes the refusal for a tunnel goes on talking: count what still arrives
+		// (a correct client closes at once)
+		got := make(chan int, 1)
+		go func() {
+			n, _ := io.Copy(io.Discard, br)
+			got <- int(n)
+		}()
+		select {
+		case n := <-got:
+			w.mu.Lock()
+			w.afterRefusal += n
+			w.mu.Unlock()
+		case <-time.After(300 * time.Millisecond):
+			c.Close()
+			n := <-got
+			w.mu.Lock()
+			w.afterRefusal += n
+			w.mu.Unlock()
+		}
 		return nil, nil
 	}
 	return &bufConn{Conn: c, br: br}, nil
